@@ -422,6 +422,17 @@ func (w *world) main() {
 			}
 		})
 	}
+	// C08 while producers are still inside PushTask: everything has come to rest
+	// without any timer advancing (push timeouts, sleeping tasks and deadlines
+	// are still ahead). If a worker has nothing to do now, no task may be
+	// waiting for one - neither in a lane nor in the hands of a blocked producer.
+	simrt.Quiesce()
+	if w.live() && w.running < w.lanes && w.inPush > 0 {
+		simrt.Probe("hol_checked")
+		w.violate("C08", "head-of-line", fmt.Sprintf("%d producer(s) wait inside PushTask for room although only %d of %d workers are busy and nothing else can move", w.inPush, w.running, w.lanes), "head-of-line blocked-push")
+	} else if w.live() && w.inPush > 0 {
+		simrt.Probe("blocked_push_with_all_workers_busy")
+	}
 	simrt.Settle()
 	if ctxKind == 3 && !w.live() {
 		simrt.Fault("ctx.deadline_fired")
